@@ -346,4 +346,30 @@ example : matchPath [.dynSegs, .param [101,110,100]] [[97],[98]] = .none := by d
 example : WFVariant ⟨[.dynParam, .dynSegs], [.u32, .nested]⟩ := by
   constructor <;> decide
 
+/-- non-vacuity of `C17_matchRoute_complete`: enum `{ #[to("/<n>")] A(u32), #[to("/<s>")] B(String) }` on `/x`:
+`A`'s pattern fits but `x` does not parse, `B` accepts. -/
+example :
+    let e : Enum1 := { variants := [⟨[.dynParam], [.u32]⟩, ⟨[.dynParam], [.str]⟩], notFound := 2,
+                       inner := { variants := [], notFound := 0 } }
+    (∀ v ∈ e.variants, WFVariant v) ∧ (∀ v ∈ e.inner.variants, WFVariant v) ∧
+    Accepts (nestedOf e.inner) ⟨[.dynParam], [.str]⟩ [[120]] [.str [120]] ∧
+    (∀ u ∈ [(⟨[.dynParam], [.u32]⟩ : Variant)], ¬ ∃ vals', Accepts (nestedOf e.inner) u [[120]] vals') := by
+  intro e
+  have hw : ∀ v ∈ e.variants, WFVariant v := by
+    intro v hv
+    simp [e] at hv
+    rcases hv with rfl | rfl <;> (constructor <;> decide)
+  refine ⟨hw, by simp [e], ?_, ?_⟩
+  · refine ⟨[.one [120]], ?_, rfl⟩
+    exact (C17_matchPath_iff_fits [.dynParam] [[120]] [.one [120]] (by decide)).1.1 (by decide)
+  · intro u hu
+    simp at hu
+    subst hu
+    rintro ⟨vals', caps, hf, hp⟩
+    have h2 : Fits [.dynParam] (stripLast [[120]]) [.one [120]] :=
+      (C17_matchPath_iff_fits [.dynParam] [[120]] [.one [120]] (by decide)).1.1 (by decide)
+    have := fits_functional hf h2
+    subst this
+    simp [parseFields, parseOne, parseU32, parseDigits] at hp
+
 end SycVerif.Route
